@@ -43,15 +43,22 @@ def gen_history(r):
             e = r.choice(LAMBDAS)
         else:
             # closure with a captured scope: apply a curried function partially
-            base = r.choice([n_ for n_ in names if n_.startswith("f")] or ["(x: y: z: x + y z)"])
-            e = "(" + base + ") " + r.choice(ARGS)
+            if r.random() < 0.5:
+                # several captured links, parameter names re-used (the ORDER of the captured chain decides which binding wins)
+                npar = r.randint(2, 5)
+                ps = [r.choice(["x", "y", "a"]) for _ in range(npar)]
+                body = " + ".join(f"{r.choice([1, 2, 10, 100])} {q_}" for q_ in r.sample(ps, min(len(ps), r.randint(1, 3))))
+                e = "(" + "".join(f"{p_}: " for p_ in ps) + body + ") " + " ".join(str(r.randint(1, 9)) for _ in range(r.randint(1, npar - 1)))
+            else:
+                base = r.choice([n_ for n_ in names if n_.startswith("f")] or ["(x: y: z: x + y z)"])
+                e = "(" + base + ") " + r.choice(ARGS)
         stmts.append(f"{name} = {e}")
         names.append(name)
     if r.random() < 0.3:
         stmts.append(r.choice(["1/0", "unknownident", "2 + 3", "5 kg + 2 m"]))      # failures / `_`,`ans` updates
     probes = []
     for nm in sorted(set(names)) + ["_", "ans"]:
-        probes += [nm, f"{nm} 2", f"{nm} 2 3", f"12345.678 to {nm}", f"{nm} + 1", f"({nm}) == ({nm})", f"{nm} to fraction"]
+        probes += [nm, f"{nm} 2", f"{nm} 2 3", f"{nm} 0", f"{nm} 10 20 30", f"12345.678 to {nm}", f"{nm} + 1", f"({nm}) == ({nm})", f"{nm} to fraction"]
     return " ;; ".join(stmts) + " || " + " ;; ".join(probes)
 
 def run(ctx):
